@@ -5,6 +5,7 @@ use std::io::{BufRead, Write};
 
 mod util;
 mod sym;
+mod rs;
 
 use util::*;
 
@@ -13,6 +14,11 @@ fn dispatch(op: &str, a: &[&str]) -> String {
         "sym_attrs" => sym::sym_attrs(a),
         "symbol_sizes" => sym::symbol_sizes(a),
         "sl" => sym::sl(a),
+        "rs_encode" => rs::rs_encode(a),
+        "gf_mulrow" => rs::gf_mulrow(a),
+        "gf_divrow" => rs::gf_divrow(a),
+        "gf_misc" => rs::gf_misc(a),
+        "generator" => rs::generator(a),
         _ => format!("unknown-op {}", op),
     }
 }
